@@ -6,7 +6,7 @@ tlc()            - run TLC under a timeout, parse states/transitions/violations/
 validate()       - trace validation of Reset-separated executions with rejection bisection
 Check            - per-run bookkeeping: violations, known findings, evidence file
 """
-import os, sys, json, subprocess, time, fcntl, hashlib, re, shutil, random, glob
+import os, sys, json, subprocess, time, fcntl, hashlib, re, shutil, random, glob, fnmatch
 
 VERIF = os.path.dirname(os.path.dirname(os.path.abspath(__file__)))
 REPO = os.environ.get("VERIF_REPO", "/repo")
@@ -359,6 +359,14 @@ def validate(spec, executions, cfg=None, shards=None, timeout=900, tag=None, env
             r = tlc(spec, cfg, env=ee, workers=1, timeout=timeout, tag="%s_%d_%d" % (tag, os.getpid(), k), dfs=dfs, xmx=xmx)
             states += r["states"]
             rej = [parse_tla_value(l) for l in r["prints"] if l.startswith('<<"REJECTED"')]
+            seen_exec = set()
+            for l in r["prints"]:
+                if l.startswith('<<"MISMATCH"'):
+                    ln = min(max(parse_tla_value(l)[1], 1), len(owner))
+                    i, j = owner[ln - 1]
+                    if i not in seen_exec:
+                        seen_exec.add(i)
+                        rejected.append((i, j, executions[i][j] if j < len(executions[i]) else {"e": "Reset"}))
             other = [x for x in r["errors"] if "Postcondition" not in x and "POSTCONDITION" not in x and "post-condition" not in x.lower()]
             if r["timeout"] or (other and not rej) or (not r["finished"] and not rej):
                 raise RuntimeError("trace validation %s shard %d failed rc=%s: %s\n%s" % (spec, k, r["rc"], other[:3], _tail(r["out"])))
@@ -452,7 +460,7 @@ class Check:
     def violation(self, key, what, replay_obj=None):
         """Report a violation identified by `key` (stable identity of the failing case). Known findings are matched by key."""
         for (pid, k, text) in self.known:
-            if pid == self.pid and (k == key or (k.endswith("*") and key.startswith(k[:-1]))):
+            if pid == self.pid and (k == key or fnmatch.fnmatchcase(key, k)):
                 self.known_hits.setdefault(k, (text, 0))
                 self.known_hits[k] = (text, self.known_hits[k][1] + 1)
                 return False
